@@ -393,7 +393,8 @@ def _alone_of(alone, h, n, op):
 HIST_RUNS = {
     "quick": [dict(MaxOps=4, NEnvs=2, Vars=ALLVARS, Vars3="{}", Bases="{1, 2, 3, 4}", Wide="FALSE")],
     "thorough": [dict(MaxOps=5, NEnvs=2, Vars=ALLVARS, Vars3="{}", Bases="{1, 2, 3, 4}", Wide="TRUE"),
-                 dict(MaxOps=4, NEnvs=3, Vars=ALLVARS, Vars3='{"custom", "stamp", "same", "role1", "lax", "impl"}', Bases="{1, 2, 4}", Wide="FALSE")],
+                 dict(MaxOps=4, NEnvs=3, Vars='{"role1", "role5", "comments", "custom", "stamp", "lax", "impl"}',
+                      Vars3='{"custom", "stamp", "same", "lax"}', Bases="{1, 2, 4}", Wide="FALSE")],
 }
 HIST_DEVS = {"quick": ["KeyOmits1", "KeyOmits5", "ParserPerClass"],
              "thorough": ["KeyOmits1", "KeyOmits2", "KeyOmits3", "KeyOmits4", "KeyOmits5", "KeyOmits6", "ParserPerClass", "ParserByHash"]}
@@ -433,10 +434,9 @@ def history_cases(ck: Check, tier: str, results: list, rnd: random.Random):
     return hists
 
 
-SESSION = 200
 
 
-def history_replay(ck: Check, hists: list, pool, singles: int):
+def history_replay(ck: Check, hists: list, pool, singles: int, SESSION: int):
     """Returns one record per replayed history: the first `singles` histories each in a process of their own, then every
     history again as part of a session of SESSION histories in one process."""
     keys = sorted({_alone_key(h, op) for h in hists for op in h["hist"]})
@@ -460,7 +460,7 @@ def history_replay(ck: Check, hists: list, pool, singles: int):
     return order, records
 
 
-def history_report(ck: Check, hists: list, order: list, records: list, verdicts: dict, singles: int) -> None:
+def history_report(ck: Check, hists: list, order: list, records: list, verdicts: dict, singles: int, SESSION: int) -> None:
     for j, clause in sorted(verdicts.items()):
         i = order[j]
         h, lazy = hists[i], i % 2 == 1
@@ -502,7 +502,7 @@ def run(tier: str) -> int:
         "base in one delimiter / comment syntax / all delimiters / extra tag / extra filter / missing filter / tolerance / implicit / nothing; "
         "each operation's result through the modelled memo tables = the operation alone")
     phase = ck.cov.setdefault("phase_s", {})
-    singles = 24 if tier == "quick" else 600
+    singles, session = (24, 200) if tier == "quick" else (200, 500)
     pool = _pool()
     try:
         t0 = time.time()
@@ -517,7 +517,7 @@ def run(tier: str) -> int:
         if cases is None or hists is None:
             return ck.finish()
         t0 = time.time()
-        order, hrecords = history_replay(ck, hists, pool, singles)          # first: the workers have only forked so far
+        order, hrecords = history_replay(ck, hists, pool, singles, session)          # first: the workers have only forked so far
         phase["replay_history"] = round(time.time() - t0, 1)
         t0 = time.time()
         obs = pool.map(replay_delims, cases, chunksize=64)
@@ -537,7 +537,7 @@ def run(tier: str) -> int:
     for n, r in enumerate(hjr):
         ck.tlc(f"EnvHistory judge #{n}", r)
     delims_report(ck, groups, drecords, dverdicts, cases, obs)
-    history_report(ck, hists, order, hrecords, hverdicts, singles)
+    history_report(ck, hists, order, hrecords, hverdicts, singles, session)
     ck.assumptions += [
         "a delimiter set is tested only when Admissible (DelimDefs.tla): six strings of length 1-4 without whitespace, not beginning or ending "
         "with '-', none contained in another, and no place of the rewritten source where one of them can be read other than where it is meant",
